@@ -114,7 +114,7 @@ func decide(prop, hd string, files []string, pkgName string, sums []*gosym.Harne
 			}
 			b, _ := json.Marshal(rf)
 			h := sha1.Sum(b)
-			dir := filepath.Join(verifDir, "replays", prop)
+			dir := replayDir(prop)
 			os.MkdirAll(dir, 0o755)
 			path := filepath.Join(dir, fmt.Sprintf("%s-%s-%x.json", strings.TrimPrefix(v.Harness, "vh_"+prop+"_"), sanitize(label), h[:4]))
 			os.WriteFile(path, b, 0o644)
